@@ -318,9 +318,11 @@ func mercPlugin(v int, cfg, cc map[string]any) (ocr3types.MercuryPlugin, *mercRe
 	}
 	// the host keeps ONE scratch buffer per kind of configuration and reuses it for every plugin it builds: a plugin
 	// (or a decoder) that keeps a reference into the bytes it was configured with sees the next configuration
-	mercScratchOn = append(mercScratchOn[:0], onchain...)
-	mercScratchOff = append(mercScratchOff[:0], offchain...)
-	onchain, offchain = mercScratchOn, mercScratchOff
+	if !inConcurrent.Load() {
+		mercScratchOn = append(mercScratchOn[:0], onchain...)
+		mercScratchOff = append(mercScratchOff[:0], offchain...)
+		onchain, offchain = mercScratchOn, mercScratchOff
+	}
 	pc := ocr3types.MercuryPluginConfig{N: n, F: jInt(cfg["f"]), OnchainConfig: onchain, OffchainConfig: offchain}
 	lggr := logger.Nop()
 	var p ocr3types.MercuryPlugin
